@@ -67,7 +67,9 @@ Definition cmd_pair (c1 : cfg) (o1 : obj) (c2 : cfg) (o2 : obj) : sexp :=
            enc_bool (if spec_eqb sp1 sp2 then true else false);
            enc_bool (ss_is_prefix s1 s2 false); enc_bool (ss_is_prefix s1 s2 true);
            enc_bool (ss_is_prefix s2 s1 false); enc_bool (ss_is_prefix s2 s1 true);
-           enc_res enc_objs (ss_flatten_up_to (c_reg c1) s1 o2);
+           (* the registry in force when flatten_up_to runs is the second configuration's (the harness may
+              re-register classes after the first treespec was made) *)
+           enc_res enc_objs (ss_flatten_up_to (c_reg c2) s1 o2);
            enc_res enc_sspec (ss_broadcast s1 s2);
            enc_res enc_sspec (ss_broadcast s2 s1);
            enc_res enc_sspec (ss_compose s1 s2);
@@ -77,7 +79,7 @@ Definition cmd_pair (c1 : cfg) (o1 : obj) (c2 : cfg) (o2 : obj) : sexp :=
            enc_res enc_bool (PrefixArr.arr_is_prefix sp2 sp1 false); enc_res enc_bool (PrefixArr.arr_is_prefix sp2 sp1 true);
            (* the array-level FlattenUpTo loop (UpToArr.v) *)
            enc_res enc_objs (UpToArr.arr_flatten_up_to
-                               {| c_nil := snil sp1; c_ns := sns sp1; c_pred := None; c_reg := c_reg c1; c_ins := []; c_limit := 0 |}
+                               {| c_nil := snil sp1; c_ns := sns sp1; c_pred := None; c_reg := c_reg c2; c_ins := []; c_limit := 0 |}
                                sp1 o2);
            (* the array-level BroadcastToCommonSuffix walk (JoinArr.v), both argument orders *)
            enc_res enc_spec (JoinArr.arr_broadcast sp1 sp2); enc_res enc_spec (JoinArr.arr_broadcast sp2 sp1);
